@@ -509,6 +509,99 @@ def check_foreign_handles(acc: core.Acc, world: World) -> None:
                              op=op, via='handle', cause='unvalidated_file_handle')
 
 
+PATTERN_ROOTS = [('maps[1]', 'maps1'), ('ro[o]t2', 'root2'), ('r*s', 'rats'), ('q?x', 'qax'), ('a[!b]c', 'axc'), ('plain', 'plain2')]
+
+
+def check_pattern_roots(acc: core.Acc, world: World) -> None:
+    """Root folders whose own NAME contains characters that are wildcards to glob / fnmatch, next to a sibling folder that the name
+    matches as a pattern: listings and lookups stay inside the root itself."""
+    base = os.path.join(world.W, 'pattern_roots')
+    for rname, sibling in PATTERN_ROOTS:
+        for d, tag in ((rname, 'IN'), (sibling, 'OUT')):
+            os.makedirs(os.path.join(base, d, 'sub'), exist_ok=True)
+            for rel in ('a.txt', 'sub/b.txt'):
+                with open(os.path.join(base, d, rel), 'wb') as f:
+                    f.write(f'{tag}:{d}:{rel}'.encode())
+    for rname, sibling in PATTERN_ROOTS:
+        root = os.path.join(base, rname)
+        for cfg, mk in (('abs', lambda: RawFileSystem(root)), ('abs_slash', lambda: RawFileSystem(root + '/')),
+                        ('chain', lambda: FileSystemChain(RawFileSystem(root))), ('chain_sub', lambda: FileSystemChain((RawFileSystem(root), 'sub')))):
+            want = {'b.txt'} if cfg == 'chain_sub' else {'a.txt', 'sub/b.txt'}
+            for op, fn in (('walk_folder("")', lambda fs: [f.path for f in fs.walk_folder('')]), ('iter', lambda fs: [f.path for f in fs]),
+                           ('walk_folder("sub")', lambda fs: [f.path for f in fs.walk_folder('sub')] if cfg != 'chain_sub' else [f.path for f in fs.walk_folder('')])):
+                acc.evaluations += 1
+                acc.nontrivial += 1
+                case = {'pattern_root': rname, 'cfg': cfg, 'op': op}
+                try:
+                    fs = mk()
+                    names = fn(fs)
+                    datas = []
+                    for nm in names[:8]:
+                        with fs.open_bin(nm) as fh:
+                            datas.append(fh.read(200))
+                except Exception as e:  # noqa: BLE001
+                    acc.fail('pattern_root_raises', case, f'root folder named {rname!r} ({cfg}): {op} raised {type(e).__name__}: {e}', op='walk')
+                    continue
+                expect = want if op != 'walk_folder("sub")' or cfg == 'chain_sub' else {'sub/b.txt'}
+                bad = [nm for nm in names if nm.replace('\\', '/').casefold() not in expect] + [d for d in datas if not d.startswith(b'IN:')]
+                if bad or len(names) != len(expect):
+                    acc.fail('listing_left_root', case, f'root folder named {rname!r} beside a folder {sibling!r} ({cfg}): {op} lists {names} '
+                             f'(contents {datas}); the root holds exactly {sorted(expect)}', op='walk')
+
+
+def check_factory_history(acc: core.Acc, world: World) -> None:
+    """get_filesystem(root) asked twice with the same string: what a caller did to the first object (switching its public
+    constrain_path attribute off, using it) has no bearing on the second, which is constrained like any new file system."""
+    from srctools.filesys import get_filesystem, RootEscapeError
+    root = os.path.join(world.W, 'root')
+    outside = {sentinel(rel) for rel in OUTSIDE}
+    for history in ('toggle_first', 'toggle_first_and_use', 'plain_first'):
+        first = get_filesystem(root)
+        if history != 'plain_first':
+            first.constrain_path = False
+        if history == 'toggle_first_and_use':
+            for path in FOREIGN_PATHS:
+                try:
+                    first.open_bin(path).close()
+                except Exception:  # noqa: BLE001 - legitimate for an unconstrained system either way
+                    pass
+        for wrap in ('direct', 'chain'):
+            second = get_filesystem(root)
+            fs = second if wrap == 'direct' else FileSystemChain(second)
+            for path in FOREIGN_PATHS + [os.path.join(world.W, 'root_evil', 'secret.txt')]:
+                for op in ('in', 'getitem', 'open_bin', 'walk'):
+                    acc.evaluations += 1
+                    acc.nontrivial += 1
+                    case = {'factory_history': history, 'wrap': wrap, 'path': world.show(path), 'op': op}
+                    try:
+                        if op == 'in':
+                            res = path in fs
+                            leaked = res is True
+                        elif op == 'getitem':
+                            res = fs[path]
+                            leaked = True
+                        elif op == 'open_bin':
+                            with fs.open_bin(path) as fh:
+                                res = fh.read(200)
+                            leaked = True
+                        else:
+                            folder = os.path.dirname(path.replace('\\', '/'))      # (a folder that is outside under every reading)
+                            if not folder:
+                                continue
+                            res = [f.path for f in itertools.islice(fs.walk_folder(folder), 8)]
+                            leaked = bool(res)
+                    except (RootEscapeError, FileNotFoundError, KeyError, NotADirectoryError):
+                        continue
+                    except Exception as e:  # noqa: BLE001
+                        acc.fail('foreign_exception', case, f'get_filesystem(root) after history {history}: {op}({world.show(path)!r}) raised {type(e).__name__}: {e}', op=op)
+                        continue
+                    if leaked:
+                        acc.fail('escape', case, f'the SECOND get_filesystem(root) (history: {history}; {wrap}) answered {op}({world.show(path)!r}) '
+                                 f'with {world.show(str(res))[:120]!r}: a path outside the root', op=op)
+            del second, fs
+        del first
+
+
 def sep_assignments(n: int, mode: str) -> list:
     """Separator assignments for n segments (n-1 separators)."""
     k = n - 1
@@ -570,9 +663,16 @@ def shard(spec) -> core.Acc:
                     check_call(acc, world, cfg, fs, prefix, op, segs, seps, p, narrow, broad)
             check_unify(acc, world, segs, seps, p)
             check_packlist(acc, world, segs, seps, p)
+            if len(segs) <= 3 and segs and not segs[0].startswith('@'):
+                # drive-relative spellings (a drive letter and colon directly before the path, as stored by Windows tools)
+                for drive in ('c:', 'C:', 'Z:'):
+                    check_unify(acc, world, [drive] + segs, [''] + seps, drive + p)
+                    check_packlist(acc, world, [drive] + segs, [''] + seps, drive + p)
         acc.count('paths', n_paths)
         if spec == _FIRST_SHARD[0]:
             check_foreign_handles(acc, world)
+            check_pattern_roots(acc, world)
+            check_factory_history(acc, world)
         if n_paths:
             acc.sample({'segs': segs, 'seps': seps, 'path': world.show(p), 'configs': 'all', 'ops': 'all'}, 1)
     finally:
@@ -634,7 +734,7 @@ def run(ctx: core.Ctx) -> None:
         _WORLD = None
     ctx.rule = (f'every path string of segments from {SEGS} (first segment additionally the absolute spelling of '
                 f'W/root, W/root_evil, W/rootX with either slash), {desc}; x {len(CONFIGS)} root configurations '
-                f'{CONFIGS} x operations {OPS}; plus packlist.unify_path on every path string; plus File handles created by an unconstrained / ancestor-rooted / temporarily unconstrained filesystem handed to open_bin, open_str and File.open_bin.  A (path, config, op) '
+                f'{CONFIGS} x operations {OPS}; plus packlist.unify_path and the PackList entry points on every path string (<= 3 segments also behind a drive letter and colon); root folders whose own name is a glob pattern matching a sibling folder; get_filesystem() asked again after the first object was unconstrained; plus File handles created by an unconstrained / ancestor-rooted / temporarily unconstrained filesystem handed to open_bin, open_str and File.open_bin.  A (path, config, op) '
                 f'triple is one case and is met once (the segments/separators -> string map is injective).  '
                 f'Non-trivial = the call did anything but answer "absent" for a path that stays inside the root '
                 f'(it raised RootEscapeError, found/opened/listed a file, or failed the oracle); for unify_path: it '
@@ -656,6 +756,12 @@ def replay(case: dict) -> list:
     try:
         build_fixture(W)
         world = World(W)
+        if 'pattern_root' in case:
+            check_pattern_roots(acc, world)
+            return [f for f in acc.all_failures() if f.case == case]
+        if 'factory_history' in case:
+            check_factory_history(acc, world)
+            return [f for f in acc.all_failures() if f.case.get('factory_history') == case['factory_history'] and f.case.get('op') == case['op']]
         segs, seps = list(case['segs']), list(case['seps'])
         if case['op'] == 'foreign_handle':
             check_foreign_handles(acc, world)
